@@ -78,6 +78,13 @@ def rule_raw(ctx):
                                f"{cn}.{name} uses `{src(a)}` of the raw stream outside any with_timeout method: a peer that stops "
                                "reading / sending holds this call (and the session's resources) without limit", construct=f"raw:{cn}.{name}:{a.attr}")
     ctx.floor("C16.RAW", 4, "uses of raw stream coroutines")
+    # the write is only bounded if it waits for the transport: drain() on every path of StreamIO.write
+    wr = p.method("StreamIO", "write")
+    drains = [a for a in walk_no_nested(wr) if isinstance(a, ast.Await) and isinstance(a.value, ast.Call) and is_method_call(a.value, "drain")]
+    ok = bool(drains) and any(not all_guards(p, a, wr) for a in drains)
+    ctx.ob("C16.RAW", wr, "StreamIO.write awaits drain() unconditionally", ok,
+           "StreamIO.write does not wait for the transport on every path (drain() missing or conditional): such writes never block, so the write timeout can never fire - a peer "
+           "that does not read gets everything buffered and the session is kept", construct="raw:StreamIO.write:drain conditional")
 
 
 def _anc(p, n, stop=None):
